@@ -83,6 +83,8 @@ def encode_event(e, d="out"):
         if e.get("kind") == "squeue-empty":
             return {"e": "sqlie", "pid": e["pid"]}
         return {"e": "fault", "pid": e["pid"]}
+    if k == "eventsobs":
+        return {"e": k, "logged": e["logged"], "summary": e["summary"]}
     if k == "marker":
         return {"e": "marker", "on": e["on"], "pid": e["pid"]}
     if k == "end":
